@@ -1,9 +1,12 @@
 package core
 
 import (
+	"fmt"
 	"go/constant"
 	"go/token"
 	"go/types"
+	"os"
+	"strings"
 
 	"golang.org/x/tools/go/ssa"
 	"golang.org/x/tools/go/ssa/ssautil"
@@ -242,4 +245,116 @@ func threadBoolPhis(fn *ssa.Function) {
 	if changed {
 		ssa.GcvRebuildDomTree(fn)
 	}
+}
+
+// InlineView selects the second view of the program: helper functions that are called from one function only
+// are inlined into it (see inlineHelpers).  Set by the driver when the first view left violations.
+var InlineView bool
+
+// KeepFunction is set by the rules package: functions whose name a rule mentions are never inlined.
+var KeepFunction func(shortName string) bool
+
+// inlineHelpers puts the body of a helper back into its caller, so that a rule anchored in a function still
+// finds "its" statements after a group of them was moved into a new helper (or always lived in one).  A
+// callee is inlined when it belongs to the module and to the caller's package, all its static call sites
+// are in that one calling function, its address is never taken, it has no defer or recover, it is not
+// recursive and it is small.  Repeated until nothing changes (helpers of helpers), at most three rounds.
+func inlineHelpers(prog *ssa.Program) {
+	var fns []*ssa.Function
+	for fn := range ssautil.AllFunctions(prog) {
+		if fn.Blocks != nil && InModule(fn) {
+			fns = append(fns, fn)
+		}
+	}
+	for round := 0; round < 3; round++ {
+		callers := map[*ssa.Function]map[*ssa.Function]int{}
+		taken := map[*ssa.Function]bool{}
+		for _, fn := range fns {
+			if fn.Synthetic != "" {
+				continue // wrappers of promoted methods, bound-method closures: not callers in the source
+			}
+			for _, b := range fn.Blocks {
+				for _, ins := range b.Instrs {
+					var callVal ssa.Value
+					if c, ok := ins.(ssa.CallInstruction); ok {
+						callVal = c.Common().Value
+						if g := c.Common().StaticCallee(); g != nil {
+							if _, plain := ins.(*ssa.Call); plain {
+								if callers[g] == nil {
+									callers[g] = map[*ssa.Function]int{}
+								}
+								callers[g][fn]++
+							} else {
+								taken[g] = true // go / defer: left alone
+							}
+						}
+					}
+					for _, op := range ins.Operands(nil) {
+						if g, ok := (*op).(*ssa.Function); ok && *op != callVal {
+							taken[g] = true
+						}
+					}
+				}
+			}
+		}
+		changedAny := false
+		for _, fn := range fns {
+			changed := false
+			for again := true; again; {
+				again = false
+			scan:
+				for _, b := range fn.Blocks {
+					for _, ins := range b.Instrs {
+						c, ok := ins.(*ssa.Call)
+						if !ok {
+							continue
+						}
+						g := c.Call.StaticCallee()
+						if g != nil && os.Getenv("GCV_DBGINL") != "" && strings.Contains(g.String(), os.Getenv("GCV_DBGINL")) {
+							fmt.Fprintln(os.Stderr, "candidate", g.String(), "in", fn.String(), "taken", taken[g], "callers", len(callers[g]), callers[g][fn], "blocks", len(g.Blocks), "inl", ssa.GcvInlinable(g), "rec", calls(g, g))
+						}
+						if g == nil || g == fn || !InModule(g) || g.Pkg != fn.Pkg || g.Pkg == nil || taken[g] || len(g.Blocks) > 80 || g.Parent() != nil {
+							continue
+						}
+						if cs := callers[g]; len(cs) != 1 || cs[fn] == 0 || cs[fn] > 8 {
+							continue
+						}
+						if g.Object() == nil || g.Object().Exported() && g.Signature.Recv() == nil {
+							continue // exported package-level functions are API: rules name them
+						}
+						if calls(g, g) || !ssa.GcvInlinable(g) || (KeepFunction != nil && KeepFunction(g.Name())) {
+							continue
+						}
+						okInl := ssa.GcvInlineCall(c)
+						if os.Getenv("GCV_DBGINL") != "" {
+							fmt.Fprintln(os.Stderr, "inline", g.String(), "into", fn.String(), okInl)
+						}
+						if okInl {
+							changed, again = true, true
+							break scan
+						}
+					}
+				}
+			}
+			if changed {
+				threadBoolPhis(fn)
+				changedAny = true
+			}
+		}
+		if !changedAny {
+			break
+		}
+	}
+}
+
+// calls: f calls g directly (used as the recursion test for helpers).
+func calls(f, g *ssa.Function) bool {
+	for _, b := range f.Blocks {
+		for _, ins := range b.Instrs {
+			if c, ok := ins.(ssa.CallInstruction); ok && c.Common().StaticCallee() == g {
+				return true
+			}
+		}
+	}
+	return false
 }
